@@ -5,6 +5,7 @@ import inspect
 import hashlib
 
 REGISTRY = {}
+LOAD_ERRORS = {}
 
 
 class Contract:
@@ -62,5 +63,8 @@ def load_all():
     cdir = os.path.join(here, "contracts")
     for fn in sorted(os.listdir(cdir)):
         if fn.startswith("c_") and fn.endswith(".py"):
-            importlib.import_module("contracts." + fn[:-3])
+            try:
+                importlib.import_module("contracts." + fn[:-3])
+            except Exception as e:  # noqa  (a broken contract file must not take the other checks down)
+                LOAD_ERRORS[fn] = "%s: %s" % (type(e).__name__, e)
     return REGISTRY
